@@ -162,7 +162,12 @@ fn run_structured_with(text: &str, vars: &[(String, String)], halting: bool) -> 
             items.sort();
             let vars = if items.is_empty() { "-".to_string() } else { items.join(",") };
             let emit = seen.borrow().iter().map(|l| crate::wire::enc_list(&l.iter().map(|s| canon_val(s)).collect::<Vec<_>>())).collect::<Vec<_>>().join(";");
-            format!("ok VARS {} EMIT {}", vars, emit)
+            // number of live collection handles in the RETURNED state
+            let handles = match c.state.get("handles") {
+                Some(duckscript::types::runtime::StateValue::SubState(m)) => m.len(),
+                _ => 0,
+            };
+            format!("ok VARS {} EMIT {} HANDLES {}", vars, emit, handles)
         }
         Err(duckscript::types::error::ScriptError::Runtime(_, m)) => format!("fail {}", crate::wire::enc_opt_num(&m.unwrap_or_default().line)),
         Err(_) => "parse-error".to_string(),
